@@ -215,11 +215,89 @@ Definition from_chars_m (t : ity) (s : list Z) (base v0 : Z) : res (fc_class * n
   | (e, TiNone, v) => Ok (FcOk, e, v)
   end).
 
-(** * strtol strtoll strtoul strtoull, stoi stol stoll stoul stoull: (value, end / *pos) *)
-Definition strto_m (t : ity) (s : list Z) (base : Z) : res (Z * nat) :=
+(** * to_integer with the default options as a (value, end) pair: what strtol & co. were before the
+      fix commits of detail::strto_integer; atoi/atol/atoll still are this with base 10 *)
+Definition ti_pair_m (t : ity) (s : list Z) (base : Z) : res (Z * nat) :=
   rbind (to_integer_m t true true s (cast t base)) (fun r =>
   match r with (e, _, v) => Ok (v, e) end).
 
 (** * atoi atol atoll *)
 Definition ato_m (t : ity) (s : list Z) : res Z :=
   rbind (to_integer_m t true true s 10) (fun r => match r with (_, _, v) => Ok v end).
+
+(** * detail::strto_integer<Int> (include/etl/_cstdlib/strto_integer.hpp), shared by strtol strtoll
+      strtoul strtoull stoi stol stoll stoul stoull *)
+Definition unsigned_of (t : ity) : ity := {| bits := bits t; sgn := false |}.
+
+Definition isxdigit_m (c : Z) : bool :=
+  ((48 <=? c) && (c <=? 57)) || ((97 <=? c) && (c <=? 102)) || ((65 <=? c) && (c <=? 70)).
+
+(* length - pos > 2 and str[pos] == '0' and (str[pos+1] == 'x' or 'X') and isxdigit(str[pos+2]);
+   the argument is the text from pos on *)
+Definition has_hex_prefix_m (s : list Z) : bool :=
+  match s with
+  | c0 :: c1 :: c2 :: _ => (c0 =? 48) && ((c1 =? 120) || (c1 =? 88)) && isxdigit_m c2
+  | _ => false
+  end.
+
+(* to_integer<UInt, {skip_whitespace = false, check_overflow = false, allow_plus_sign = false}>:
+   nop_overflow_checker (its constructor does not divide), the accumulation wraps in the unsigned
+   type.  Only instantiated with unsigned types (no minus branch), only .end is used. *)
+Fixpoint ti_loop_nc (ut : ity) (base : Z) (s : list Z) (pos : nat) (value : Z) : res (nat * Z) :=
+  match s with
+  | [] => Ok (pos, value)
+  | c :: r =>
+    let digit := parse_digit_m ut c in
+    if digit >=? base then Ok (pos, value)
+    else rbind (accumulate_m ut base value digit) (fun v' => ti_loop_nc ut base r (S pos) v')
+  end.
+
+Definition to_integer_nc_m (ut : ity) (s : list Z) (base : Z) : res ti_out :=
+  match s with
+  | [] => ti_error TiInvalid
+  | c :: r =>
+    let digit := parse_digit_m ut c in
+    rbind (abs_m ut digit) (fun a =>
+    if cast ut a >=? base then ti_error TiInvalid
+    else rbind (ti_loop_nc ut base r 1 digit) (fun lr => Ok (fst lr, TiNone, snd lr)))
+  end.
+
+(* from `auto const digits = str.substr(pos)` on: s3 = the text from pos on, p3 = pos *)
+Definition strto_convert_m (t : ity) (negative : bool) (base' : Z) (s3 : list Z) (p3 : nat) : res ti_out :=
+  let ut := unsigned_of t in
+  rbind (to_integer_m ut false false s3 (cast ut base')) (fun mag =>
+  match mag with
+  | (_, TiInvalid, _) => ti_error TiInvalid
+  | (e, err, m) =>
+    let overflow := match err with TiOverflow => true | _ => false end in
+    rbind (if overflow
+           then rbind (to_integer_nc_m ut s3 (cast ut base')) (fun r => match r with (e', _, _) => Ok e' end)
+           else Ok e) (fun e' =>
+    let endp := (p3 + e')%nat in
+    (* static_cast<UInt>(static_cast<UInt>(max) + UInt(negative ? 1 : 0)) *)
+    let limit := cast ut (cast ut (imax t) + (if negative then 1 else 0)) in
+    if sgn t && (overflow || (m >? limit)) then Ok (endp, TiOverflow, if negative then imin t else imax t)
+    else if negb (sgn t) && overflow then Ok (endp, TiOverflow, imax t)
+    (* negative ? static_cast<Int>(UInt{0} - magnitude.value) : static_cast<Int>(magnitude.value) *)
+    else Ok (endp, TiNone, if negative then cast t (cast ut (0 - m)) else cast t m))
+  end).
+
+(* base is an int; result (end - str.data(), error, value) *)
+Definition strto_integer_m (t : ity) (s : list Z) (base : Z) : res ti_out :=
+  if (base <? 0) || (base =? 1) || (base >? 36) then ti_error TiInvalid
+  else
+    let '(s1, p1) := skip_ws_m s 0 in
+    let '(negative, s2, p2) :=
+      match s1 with
+      | c :: r => if (c =? 45) || (c =? 43) then (c =? 45, r, S p1) else (false, s1, p1)
+      | [] => (false, s1, p1)
+      end in
+    let '(base', s3, p3) :=
+      if ((base =? 0) || (base =? 16)) && has_hex_prefix_m s2 then (16, skipn 2 s2, (p2 + 2)%nat)
+      else if base =? 0 then (match s2 with c :: _ => if c =? 48 then 8 else 10 | [] => 10 end, s2, p2)
+      else (base, s2, p2) in
+    strto_convert_m t negative base' s3 p3.
+
+(** * strtol strtoll strtoul strtoull, stoi stol stoll stoul stoull: (value, end - str / *pos) *)
+Definition strto_m (t : ity) (s : list Z) (base : Z) : res (Z * nat) :=
+  rbind (strto_integer_m t s base) (fun r => match r with (e, _, v) => Ok (v, e) end).
